@@ -108,6 +108,17 @@ def make_data(c):
         import pandas as pd
 
         X = pd.DataFrame(X)
+    if c["nan"] and c["seed"] % 6 == 4 and c["kind"] == "int":
+        # the missing value sits in a column of a pandas nullable dtype (counts read as "Int64", flags as "boolean", "Float64")
+        import pandas as pd
+
+        Z = np.nan_to_num(np.asarray(X, dtype=float), nan=0.0)
+        i, j = [int(v[0]) for v in np.where(np.isnan(np.asarray(X, dtype=float)))]
+        dt = ["Int64", "UInt8", "boolean", "Float64"][(c["seed"] // 6) % 4]
+        F = pd.DataFrame(np.abs(Z).astype(np.int64) if dt != "boolean" else (Z > 0))
+        F[j] = F[j].astype(dt)
+        F.iloc[i, j] = pd.NA
+        X = F
     return X
 
 
